@@ -429,7 +429,7 @@ def run(ctx):
     tok_param = next((l for l in range(1, vt.argc + 1) if vt.locals[l].get("n") == "tokens"), None)
     for bi, t in vt.calls():
         d = t["f"].get("def", "")
-        if d.endswith("IntoIterator>::into_iter") or d.endswith("::iter"):
+        if d.endswith("::into_iter") or d.endswith("::iter"):
             e = vt.expr(t["args"][0])
             if L.root_local(vt, e) == tok_param and tok_param is not None:
                 whole = True
